@@ -57,7 +57,7 @@ Fail == [st |-> "fail", vals |-> <<>>]
 (*   "v64" the same with every element written int64(x)                               *)
 (*   "ip" sort in place: a := arg; r := f(a); observe a and r                         *)
 (*   "ipb" in-place predicate on an array (IsSorted...)                               *)
-(*   "sl" sort.Slice/SliceStable with the comparator a[i]/10 < a[j]/10                *)
+(*   "sl" sort.Slice/SliceStable with the comparator a[i]/100 < a[j]/100              *)
 (*   "se" sort.Search(n, func(i) bool { return i >= k })                              *)
 (*   "rt64" d, err := base64.Decode(base64.Encode(x))                                 *)
 (*   "rtrom" n, err := strconv.Rtoi(first result of strconv.Itor(x))                  *)
@@ -204,7 +204,12 @@ D_LSs == {LS(SortStrs(l)) : l \in Seqs({<<>>, <<97>>, <<98>>, <<97, 98>>, <<65>>
 D_LI == {LI(l) : l \in Seqs({-2, 0, 1, 3, 10}, LLen + 1)}
 D_LI1 == {LI(l) : l \in Seqs({-2, 0, 1, 3, 10}, LLen + 1) \ {<<>>}}
 D_LIs == {LI(SortInts(l)) : l \in Seqs({-2, 0, 1, 3}, LLen + 1)}
-D_Keyed == {LI([i \in 1..Len(k) |-> k[i] * 10 + i]) : k \in Seqs({1, 2, 3}, LLen + 2)}
+(* elements are key*100+position: the position is the identity tag.  Long lists (20-24 elements) matter: *)
+(* Go's sort.Slice is an insertion sort (hence stable) below 13 elements                                 *)
+KeyedOf(k) == LI([i \in 1..Len(k) |-> k[i] * 100 + i])
+D_Keyed == {KeyedOf(k) : k \in Seqs({1, 2, 3}, LLen + 1)}
+           \cup {KeyedOf(k \o k \o k \o k \o k) : k \in [1..4 -> {1, 2, 3}]}
+           \cup {KeyedOf(k \o k \o j \o k \o j \o j) : k \in [1..4 -> {3, 2}], j \in [1..4 -> {1, 2}]}
 D_Int == {I(n) : n \in SmallInts} \cup {Big("i", x) : x \in BigTexts}
 D_Int64 == {I64(n) : n \in SmallInts} \cup {Big("i64", x) : x \in BigTexts}
 D_Num == {S(w) : w \in NumTexts}
@@ -249,6 +254,18 @@ Dom(d) ==
     [] d = "Rom" -> D_Rom
     [] d = "Path" -> D_Path
     [] d = "LP" -> D_LP
+
+(* values of a domain that every run includes (boundaries), whatever the sample *)
+Must(d) ==
+  CASE d = "Rom" -> {I(n) : n \in {1, 4, 9, 14, 40, 90, 400, 1994, 3888, 3999, 0, -1, 4000}}
+    [] d = "T" -> {S(<<>>), S(<<97>>), S(<<195, 169>>)}
+    [] d = "Ta" -> {S(<<>>)}
+    [] d = "Bytes" -> {S(<<>>), S(<<255>>), S(<<0>>), S(<<104, 105, 255>>)}
+    [] d = "Path" -> {S(<<>>), S(<<47>>), S(<<46>>), S(<<46, 46>>), S(<<47, 47>>)}
+    [] d = "LS" -> {LS(<<>>), LS(<< <<>> >>), LS(<< <<>>, <<>> >>)}
+    [] d = "LI" -> {LI(<<>>)}
+    [] d = "Keyed" -> {KeyedOf(<<3, 1, 2, 1, 3, 1, 2, 2, 1, 3, 3, 1, 2, 1, 1, 3, 2, 3, 1, 2>>)}
+    [] OTHER -> {}
 
 (* ------------------------------------------------------------------ the oracle *)
 IV(x) == x.v
